@@ -62,7 +62,63 @@ def parseMembers (s : String) : Option (List (List Char × Int)) :=
     | [n, v] => v.toInt?.map fun i => (n.toList, i)
     | _ => none
 
+def stripSeq (t : List Char) : List Char :=
+  match t with
+  | 's' :: 'e' :: 'q' :: ':' :: r => r
+  | _ => t
+
+def pOC : P (Option Char) := do
+  match (← tok).toList with
+  | ['!'] => pure none
+  | [c] => pure (some c)
+  | t => throw s!"ochar? {String.ofList t}"
+
+def pOB : P (Option Bool) := do
+  match (← tok) with
+  | "T" => pure (some true) | "F" => pure (some false) | "!" => pure none
+  | t => throw s!"obool? {t}"
+
+def pB : P Bool := do
+  match (← tok) with
+  | "T" => pure true | "F" => pure false
+  | t => throw s!"bool? {t}"
+
+/-- `n:c1,c2,…` or `!` -/
+def pOSyn : P (Option (List (List Char))) := do
+  let t ← tok
+  if t == "!" then pure none
+  else
+    match t.splitOn ":" with
+    | [n, rest] =>
+      let cs := if rest == "" then [] else (rest.splitOn ",").map String.toList
+      if n.toNat? == some cs.length then pure (some cs) else throw s!"syn count? {t}"
+    | _ => throw s!"syn? {t}"
+
+def pAnswers : P CodonAnswers := do
+  let text ← pText; let a ← pOC; let b ← pOC; let c ← pOB; let d ← pOB; let e ← pOB
+  let f ← pOB; let g ← pOB; let h ← pOB; let i ← pOSyn; let j ← pOSyn
+  pure ⟨text, a, b, c, d, e, f, g, h, i, j⟩
+
+def pBar : P Unit := do
+  match (← tok) with
+  | "|" => pure ()
+  | t => throw s!"|? {t}"
+
+def pOutcome : P Outcome := do
+  match (← tok) with
+  | "OY" => pure (true, true) | "ON" => pure (true, false) | "X-" => pure (false, false)
+  | t => throw s!"outcome? {t}"
+
 def ops : List (String × Op) := [
+  ("hist", do
+      let h ← pText; let sps ← pList pText; pArrow
+      let a ← pAns (do
+        let a0 ← pAnswers; pBar
+        let outs ← pList pOutcome; pBar
+        let a1 ← pAnswers; pBar
+        let x ← pB; let y ← pB; let z ← pB
+        pure (a0, outs, a1, (x, y, z)))
+      pure (verdict (okHist (stripSeq h) (sps.map stripSeq) a))),
   ("translate", do
       let s ← pText; let strict ← pBool; pArrow; let a ← pAns pChar
       pure (verdict (okTranslate (upper s) strict a))),
